@@ -87,9 +87,9 @@ def _recheck_timeouts(recs, jobs):
                 text, rxt, entry, pos, full, x, p = c
                 t = text.encode('latin-1') if opts.get('bytes') else text
                 if x == 'timeout':
-                    x = impl.observe_raw(g, ex, entry, t, pos, timeout=2.0)
+                    x = impl.observe_raw(g, ex, entry, t, pos, timeout=1.5, retry=False)
                 if p == 'timeout':
-                    p = impl.observe_parse(g, ex, entry, t, pos, full, timeout=2.0,
+                    p = impl.observe_parse(g, ex, entry, t, pos, full, timeout=1.5, retry=False,
                                            module_level=opts.get('module_level', False))
                 r['cases'][i] = (text, rxt, entry, pos, full, x, p)
     return recs
@@ -199,7 +199,7 @@ def spec_parse_verdict(ip, mq):
     return 'ok' if _SPAN.sub(_zw, ip) == _SPAN.sub(_zw, mq) else 'violation'
 
 
-def compare(R, recs, stream, mechanism_of=None, check_parse=True, sample_every=997):
+def compare(R, recs, stream, mechanism_of=None, check_parse=True, sample_every=997, explain_rec=None):
     """feed a batch of records into the Run: correspondence + spec check"""
     hist = R.extra.setdefault('outcomes', {}).setdefault(stream, {})
 
@@ -228,7 +228,7 @@ def compare(R, recs, stream, mechanism_of=None, check_parse=True, sample_every=9
             if v == 'violation':
                 mech = mechanism_of(r, case, ix, ms) if mechanism_of else 'peg-semantics'
             if c == 'differ':
-                R.disagree(stream, case, ix, mx, explained_by=mech)
+                R.disagree(stream, case, ix, mx, explained_by=mech or (explain_rec(r) if explain_rec else None))
             else:
                 R.traces += 1
             bump('spec:' + v)
@@ -241,7 +241,7 @@ def compare(R, recs, stream, mechanism_of=None, check_parse=True, sample_every=9
                 if v2 == 'violation':
                     mech2 = mech if v == 'violation' else (mechanism_of(r, case, ip, mq) if mechanism_of else 'parse-outcome')
                 if c2 == 'differ':
-                    R.disagree(stream + ':parse', case, ip, mp, explained_by=mech2)
+                    R.disagree(stream + ':parse', case, ip, mp, explained_by=mech2 or (explain_rec(r) if explain_rec else None))
                 if v2 == 'violation' and v != 'violation':
                     R.counterexample(stream + ':parse', mech2, case, mq, ip)
             if n % sample_every == 1 and len(R.samples) < 10:
